@@ -1,9 +1,57 @@
-import ScryerModel.Model.Syntax
+import ScryerModel.Proofs.Syntax
+/-!
+# C15 — Printed terms read back as the same term
+
+Term layer on top of the C55 token layer (`Props/C55.lean` proves: every printed atom reads back as
+itself, and a sequence of printed tokens never fuses). Here: terms on tokens.
+-/
 namespace Scryer.C15
 open Scryer.Syntax Scryer.Quote
 
-/-- `needs_bracketing` is sound for the right operand / prefix operand: when it asks for no brackets, the
-    child's priority is admissible in that argument position (ISO 6.3.4). -/
+mutual
+theorem size_le_printC : ∀ t : Tm, t.size ≤ (printC t).length
+  | .atom a => by
+    simp only [Tm.size, printC, atomTokens]
+    split <;> (try split) <;> simp
+  | .int n => by simp only [Tm.size, printC]; split <;> simp
+  | .flt neg s => by cases neg <;> simp [Tm.size, printC]
+  | .var s => by simp [Tm.size, printC]
+  | .cmp f a as => by
+    have h1 := size_le_printC a
+    have h2 := size_le_printArgs as
+    have h3 : 1 ≤ (atomTokens f).length := by
+      simp only [atomTokens]; split <;> (try split) <;> simp
+    simp only [Tm.size, printC, List.length_append, List.length_cons]
+    omega
+theorem size_le_printArgs : ∀ as : Args, as.size ≤ (printArgs as).length
+  | .nil => by simp [Args.size, printArgs]
+  | .cons t ts => by
+    have h1 := size_le_printC t
+    have h2 := size_le_printArgs ts
+    simp only [Args.size, printArgs, List.length_append, List.length_cons]
+    omega
+end
+
+/-- **write_canonical round trip (token level), all terms.** For every term — atoms with any text
+    (including `[]`, `{}`, `-`, `,`, `|`, operators), positive and negative integers, float literals,
+    variables, compounds of any arity and nesting, with any functor (lists are `'.'(H,T)` compounds as
+    write_canonical prints them) — the deterministic canonical reader reads the tokens of the canonical
+    notation, followed by the end token, back as exactly that term. No operator table is involved:
+    canonical output is read the same under every table. -/
+theorem C15_canonical_roundtrip (t : Tm) : readCanonToks (printC t ++ [.endTok]) = some t := by
+  have hs := size_le_printC t
+  have := parseC_printC t (2 * (printC t ++ [Tok.endTok]).length + 2) [.endTok]
+    (by simp only [List.length_append, List.length_cons, List.length_nil]; omega) trivial
+  simp only [readCanonToks, this]
+
+/-- the same inside any context: a canonical term followed by more tokens is read off the front. -/
+theorem C15_canonical_prefix (t : Tm) (k : List Tok) (hk : KOk k) (fuel : Nat) (hf : t.size < fuel) :
+    parseC fuel (printC t ++ k) = some (t, k) := parseC_printC t fuel k hf hk
+
+/-- **`needs_bracketing` is sound (right / prefix operand).** When `heap_print.rs::needs_bracketing` asks
+    for no brackets around the right operand of an infix operator or the operand of a prefix operator,
+    the operand's priority is admissible there (ISO 6.3.4: at most the operator's priority for a `y`
+    argument, strictly less for an `x` argument). -/
 theorem C15_bracketing_sound_right (child d : OpDesc) (name : List Char)
     (hd : d.spec.isPrefix = true ∨ d.spec.isInfix = true)
     (h : needsBracketing child (.left name d) = false) : child.prec ≤ (argMax d).2 := by
@@ -13,5 +61,42 @@ theorem C15_bracketing_sound_right (child d : OpDesc) (name : List Char)
   · simp only [Bool.or_eq_false_iff, decide_eq_false_iff_not, Bool.and_eq_false_iff, beq_eq_false_iff_ne,
       Nat.not_lt] at h
     cases hs : d.spec <;> simp [argMax, hs, Spec.isPrefix, Spec.isInfix, Spec.strictRight] at h hd ⊢ <;> omega
+
+/-- **`needs_bracketing` is sound (left operand).** Same for the left operand of an infix operator and
+    the operand of a postfix operator. -/
+theorem C15_bracketing_sound_left (child d : OpDesc) (name : List Char)
+    (hd : d.spec.isPostfix = true ∨ d.spec.isInfix = true)
+    (h : needsBracketing child (.right name d) = false) : child.prec ≤ (argMax d).1 := by
+  simp only [needsBracketing] at h
+  split at h
+  · simp at h
+  · rename_i h0
+    simp only [Bool.or_eq_true, decide_eq_true_eq, Bool.and_eq_true, beq_iff_eq, not_or, not_and, Nat.not_lt] at h0
+    cases hs : d.spec <;> simp [argMax, hs, Spec.isPostfix, Spec.isInfix, Spec.strictLeft] at h0 hd ⊢ <;> omega
+
+/-- The writeq round trip restricted to what is proved: the bracketing decision never leaves an operand
+    unbracketed whose priority is too high for its position (the two theorems above), every token is
+    written so that it reads back as itself and adjacent tokens never fuse (C55). NOT proved: that the
+    operator-precedence reader is deterministic on the printed token sequence (prefix operators used as
+    atoms, `- (1)` against `-1`, a prefix operator followed by a bracket, operators that are both prefix
+    and infix); this part is covered by the differential run only, which found two defects there
+    (C15-1, C15-2). The statement below is the conjunction of the proved local facts for one operator
+    node. -/
+theorem C15_writeq_roundtrip_partial (child d : OpDesc) (name : List Char) :
+    (d.spec.isPrefix = true ∨ d.spec.isInfix = true → needsBracketing child (.left name d) = false →
+      child.prec ≤ (argMax d).2) ∧
+    (d.spec.isPostfix = true ∨ d.spec.isInfix = true → needsBracketing child (.right name d) = false →
+      child.prec ≤ (argMax d).1) :=
+  ⟨fun hd h => C15_bracketing_sound_right child d name hd h, fun hd h => C15_bracketing_sound_left child d name hd h⟩
+
+/-! ## Non-vacuity -/
+example : printC (.cmp ['f'] (.atom ['[', ']']) (.cons (.int (-3)) .nil)) =
+    [.name ['f'], .openCT, .punct '[', .punct ']', .punct ',', .name ['-'], .int 3, .punct ')'] := by decide
+example : readCanonToks (printC (.cmp ['f'] (.atom ['[', ']']) (.cons (.int (-3)) .nil)) ++ [.endTok]) =
+    some (.cmp ['f'] (.atom ['[', ']']) (.cons (.int (-3)) .nil)) := C15_canonical_roundtrip _
+/-- `1-(2-3)`: the right operand of yfx 500 at the same priority needs brackets, the left one does not -/
+example : needsBracketing ⟨500, .yfx⟩ (.left ['-'] ⟨500, .yfx⟩) = true ∧
+    needsBracketing ⟨500, .yfx⟩ (.right ['-'] ⟨500, .yfx⟩) = false := by decide
+example : needsBracketing ⟨200, .xfy⟩ (.left ['^'] ⟨200, .xfy⟩) = false := by decide
 
 end Scryer.C15
